@@ -13,7 +13,7 @@ THEOREMS = ['Tbox.C12.' + t for t in [
     'C12_single_disconnect', 'C12_peer_stream', 'C12_close_after_full_delivery',
     'C12_write_error', 'C12_half_close_counterexample', 'C12_written_once', 'C12_head_of_line', 'C12_commit_after_gone',
     'C12_handler_commits_once', 'C12_scripted_admissible', 'C12_scripted_pipelining',
-    'C12_respond_roundtrip', 'C12_untouched_context_answers_404', 'C12_url_codec_roundtrip', 'C12_url_roundtrip_counterexample',
+    'C12_respond_roundtrip', 'C12_untouched_context_answers_404', 'C12_url_codec_roundtrip', 'C12_url_roundtrip_path', 'C12_url_roundtrip_counterexample',
     'C12_nothing_after_close_counterexample_unpatched', 'C12_closing_response_lost_unpatched']]
 SOURCES = [
     'modules/http/common.cpp', 'modules/http/url.cpp', 'modules/http/request.cpp', 'modules/http/respond.cpp',
